@@ -476,7 +476,8 @@ func errCode(err error) int64 {
 		return 0
 	case strings.Contains(err.Error(), "failed to find"):
 		return 1
-	case strings.Contains(err.Error(), "host does not exist"):
+	case strings.Contains(err.Error(), "host does not exist"), strings.Contains(err.Error(), "host is not ready in the cache"):
+		// a placeholder NodeInfo (no Node object) is refused like an unknown node (fix 8dab8c3)
 		return 2
 	case strings.Contains(err.Error(), "PodGroup of Job"):
 		return 3
